@@ -468,9 +468,15 @@ def build_image(img, rng, policy="decoy", mode="random"):
 
     sample_bytes = SAMPLE_BYTES[type_code]
     raw = img.get("raw")
-    if raw is None:
+    sparse_rows = img.get("sparse_rows")
+    if sparse_rows is not None:
+        # a virtual image: only the listed lines carry generated samples, all others are zero and
+        # are never materialised (files of several GiB at the cost of their record prefixes)
+        raw = None
+    elif raw is None:
         raw = gen_raw_samples(lines * pixels * sample_bytes, rng, type_code)
-    assert len(raw) == lines * pixels * sample_bytes
+    assert raw is None or len(raw) == lines * pixels * sample_bytes
+    extents = []
 
     inst = img.get("instant") or {"year": 2014, "doy": 241, "ms": 45_296_789, "us": 123}
     columns = img.get("columns", {})
@@ -541,6 +547,13 @@ def build_image(img, rng, policy="decoy", mode="random"):
 
         rec, leaves = layout.encode(table, pres, line_filler)
         assert len(rec) == PREFIX_LEN[table], (len(rec), table)
+        if sparse_rows is not None:
+            extents.append((720 + i * reclen, bytes(rec)))
+            if i in sparse_rows:
+                row_rng = random.Random(f"sparse/{sparse_rows[i]}/{i}")
+                extents.append((720 + i * reclen + len(rec), gen_raw_samples(pixels * sample_bytes, row_rng, type_code)))
+            line_leaves.append(leaves)
+            continue
         out += rec
         out += raw[i * pixels * sample_bytes: (i + 1) * pixels * sample_bytes]
         line_leaves.append(leaves)
@@ -554,6 +567,10 @@ def build_image(img, rng, policy="decoy", mode="random"):
         "lines": lines,
         "pixels": pixels,
     }
+    if sparse_rows is not None:
+        from vf.ceosgen.sparse import SparseBytes
+
+        return SparseBytes(720 + lines * reclen, [(0, bytes(out))] + extents), info
     return bytes(out), info
 
 
